@@ -262,6 +262,39 @@ Theorem C20_gen_highest_outliers :
 Proof. exact gen_sim_highest. Qed.
 Print Assumptions C20_gen_highest_outliers.
 
+(* UpkeepStats, the scan for the first block after an eligibility point: the model's scan_gt is the translated loop body (both the performed and the checked scan) *)
+Theorem C20_gen_stats_scan :
+  forall e x t,
+  scan_gt e (x :: t) =
+  match g_sim_stats_scan_performed (str_ltb e x), g_sim_stats_scan_checked (str_ltb e x) with
+  | ([1; 2; 3; 4], Brk), ([1; 2; 3; 4], Brk) => Some (x, t)
+  | ([], Fall), ([], Fall) => scan_gt e t
+  | _, _ => None
+  end.
+Proof. exact gen_sim_stats_scan. Qed.
+Print Assumptions C20_gen_stats_scan.
+
+(* UpkeepStats, one eligibility point: each list is scanned exactly while some of it is left, and a delay recorded only when a later block was found *)
+Theorem C20_gen_stats_per_eligible :
+  forall ps np cs nc pd cd pf cf,
+  let acts := fst (g_sim_stats_body ps np cs nc pd cd pf cf) in
+  (In 1 acts <-> ps < np) /\ (In 4 acts <-> cs < nc) /\
+  ((In 2 acts \/ In 3 acts) <-> (ps < np /\ 0 <= pd)) /\ ((In 5 acts \/ In 6 acts) <-> (cs < nc /\ 0 <= cd)) /\
+  snd (g_sim_stats_body ps np cs nc pd cd pf cf) = Fall.
+Proof. exact gen_sim_stats_body. Qed.
+Print Assumptions C20_gen_stats_per_eligible.
+
+(* UpkeepIDs: an identifier is appended on its first occurrence only - the model's first_ids *)
+Theorem C20_gen_upkeep_ids :
+  forall x t seen,
+  first_ids (x :: t) seen =
+  match g_sim_upkeep_ids_body (memN x seen) with
+  | ([1; 2], Fall) => x :: first_ids t (x :: seen)
+  | _ => first_ids t seen
+  end.
+Proof. exact gen_sim_upkeep_ids. Qed.
+Print Assumptions C20_gen_upkeep_ids.
+
 End GenTie.
 
 (* Non-vacuity: four ids (the case that crashed a real run) give a summary; three performs
